@@ -1,2 +1,282 @@
-use rustc_middle::ty::TyCtxt;
-pub fn dump_callgraph<'tcx>(_tcx: TyCtxt<'tcx>, _krate: &str, _out: &mut Vec<u8>) {}
+// Instance-level call graph of the local crate, following generic instantiations into upstream
+// workspace crates (their MIR is available through -Zalways-encode-mir).
+//
+// Nodes are either fully monomorphic instances or "identity" instances (a generic item with its own
+// parameters).  A generic callee reached from a generic caller is replaced by its identity instance.
+use crate::json::{b, obj, s};
+use crate::mirdump::{fix_crate, loc_of, path_of};
+use rustc_hir::def::DefKind;
+use rustc_hir::def_id::DefId;
+use rustc_middle::mir::{Body, Operand, Rvalue, StatementKind, TerminatorKind};
+use rustc_middle::ty::adjustment::PointerCoercion;
+use rustc_middle::ty::print::{with_crate_prefix, with_no_trimmed_paths, with_no_visible_paths};
+use rustc_middle::ty::{self, GenericArgs, GenericArgsRef, Instance, Ty, TyCtxt, TypeVisitableExt, TypingEnv};
+use std::collections::HashMap;
+
+#[derive(Clone, Copy, PartialEq, Eq, Hash)]
+struct Node<'tcx> {
+    did: DefId,
+    args: GenericArgsRef<'tcx>,
+}
+
+struct Cg<'tcx> {
+    tcx: TyCtxt<'tcx>,
+    ws: Vec<String>,
+    ids: HashMap<Node<'tcx>, usize>,
+    nodes: Vec<Node<'tcx>>,
+    work: Vec<usize>,
+    edges: Vec<(usize, usize, &'static str, usize)>,
+    ext_calls: Vec<(usize, String, usize)>,
+}
+
+fn args_str<'tcx>(args: GenericArgsRef<'tcx>) -> String {
+    fix_crate(with_no_visible_paths!(with_crate_prefix!(with_no_trimmed_paths!(format!("{:?}", args)))))
+}
+
+impl<'tcx> Cg<'tcx> {
+    fn in_ws(&self, did: DefId) -> bool {
+        if did.is_local() {
+            return true;
+        }
+        let n = self.tcx.crate_name(did.krate).to_string();
+        self.ws.iter().any(|w| *w == n)
+    }
+
+    fn is_mono(args: GenericArgsRef<'tcx>) -> bool {
+        !args.has_non_region_param()
+    }
+
+    fn node(&mut self, did: DefId, args: GenericArgsRef<'tcx>) -> usize {
+        let tcx = self.tcx;
+        let args = if Self::is_mono(args) { tcx.erase_and_anonymize_regions(args) } else { GenericArgs::identity_for_item(tcx, did) };
+        let n = Node { did, args };
+        if let Some(i) = self.ids.get(&n) {
+            return *i;
+        }
+        let i = self.nodes.len();
+        self.nodes.push(n);
+        self.ids.insert(n, i);
+        self.work.push(i);
+        i
+    }
+
+    fn body_of(&self, did: DefId) -> Option<&'tcx Body<'tcx>> {
+        let tcx = self.tcx;
+        match tcx.def_kind(did) {
+            DefKind::Fn | DefKind::AssocFn | DefKind::Closure => {}
+            _ => return None,
+        }
+        if tcx.is_coroutine(did) {
+            return None;
+        }
+        if !tcx.is_mir_available(did) {
+            return None;
+        }
+        if tcx.is_foreign_item(did) {
+            return None;
+        }
+        Some(tcx.optimized_mir(did))
+    }
+
+    // add edges for closures / fn items mentioned in generic arguments (passed to adapters)
+    fn fn_types_in(&mut self, from: usize, ty: Ty<'tcx>, line: usize) {
+        for ga in ty.walk() {
+            if let Some(t) = ga.as_type() {
+                match t.kind() {
+                    ty::Closure(did, cargs) => {
+                        if self.in_ws(*did) {
+                            let to = self.node(*did, cargs);
+                            self.edges.push((from, to, "closure-arg", line));
+                        }
+                    }
+                    ty::FnDef(did, fargs) => {
+                        if self.in_ws(*did) {
+                            let to = self.node(*did, fargs);
+                            self.edges.push((from, to, "fn-arg", line));
+                        }
+                    }
+                    _ => {}
+                }
+            }
+        }
+    }
+
+    fn virtual_targets(&mut self, from: usize, method: DefId, line: usize) {
+        let tcx = self.tcx;
+        let Some(trait_did) = tcx.trait_of_assoc(method) else { return };
+        let impls: Vec<DefId> = tcx.all_impls(trait_did).collect();
+        for imp in impls {
+            if !self.in_ws(imp) {
+                continue;
+            }
+            let self_ty = tcx.type_of(imp).instantiate_identity().skip_norm_wip();
+            let map = tcx.impl_item_implementor_ids(imp);
+            if let Some(item) = map.get(&method) {
+                let a = GenericArgs::identity_for_item(tcx, *item);
+                let to = self.node(*item, a);
+                self.edges.push((from, to, "virtual", line));
+            } else if tcx.defaultness(method).has_value() {
+                // default method instantiated for this implementing type (only when monomorphic)
+                let st = tcx.erase_and_anonymize_regions(self_ty);
+                if !st.has_non_region_param() && tcx.generics_of(method).count() == 1 {
+                    let a = tcx.mk_args(&[st.into()]);
+                    let to = self.node(method, a);
+                    self.edges.push((from, to, "virtual-default", line));
+                } else {
+                    let a = GenericArgs::identity_for_item(tcx, method);
+                    let to = self.node(method, a);
+                    self.edges.push((from, to, "virtual-default", line));
+                }
+            }
+        }
+    }
+
+    fn process(&mut self, idx: usize) {
+        let tcx = self.tcx;
+        let n = self.nodes[idx];
+        let Some(body) = self.body_of(n.did) else { return };
+        let mono = Self::is_mono(n.args);
+        let env = if mono { TypingEnv::fully_monomorphized() } else { TypingEnv::post_analysis(tcx, n.did) };
+        let inst = Instance::new_raw(n.did, n.args);
+        let subst = |t: Ty<'tcx>| -> Option<Ty<'tcx>> {
+            if mono {
+                let r = std::panic::catch_unwind(std::panic::AssertUnwindSafe(|| {
+                    inst.try_instantiate_mir_and_normalize_erasing_regions(tcx, env, ty::EarlyBinder::bind(t))
+                }));
+                match r {
+                    Ok(Ok(t)) => Some(t),
+                    _ => None,
+                }
+            } else {
+                Some(t)
+            }
+        };
+        let sm = tcx.sess.source_map();
+        for data in body.basic_blocks.iter() {
+            if data.is_cleanup {
+                continue;
+            }
+            for st in data.statements.iter() {
+                if let StatementKind::Assign(bx) = &st.kind {
+                    if let Rvalue::Cast(kind, op, _) = &bx.1 {
+                        if matches!(kind, rustc_middle::mir::CastKind::PointerCoercion(PointerCoercion::ReifyFnPointer(_), _)) {
+                            if let Some(t) = subst(op.ty(body, tcx)) {
+                                let line = sm.lookup_char_pos(st.source_info.span.source_callsite().lo()).line;
+                                self.fn_types_in(idx, t, line);
+                            }
+                        }
+                    }
+                }
+            }
+            let Some(term) = &data.terminator else { continue };
+            if let TerminatorKind::Call { func, .. } = &term.kind {
+                let line = sm.lookup_char_pos(term.source_info.span.source_callsite().lo()).line;
+                let fty = match func {
+                    Operand::Constant(c) => c.const_.ty(),
+                    o => o.ty(body, tcx),
+                };
+                let Some(fty) = subst(fty) else { continue };
+                let ty::FnDef(cdid, cargs) = fty.kind() else { continue };
+                let cargs = if mono {
+                    *cargs
+                } else {
+                    tcx.try_normalize_erasing_regions(env, ty::Unnormalized::new_wip(*cargs)).unwrap_or(*cargs)
+                };
+                // closures / fn items handed to the callee
+                for ga in cargs.iter() {
+                    if let Some(t) = ga.as_type() {
+                        self.fn_types_in(idx, t, line);
+                    }
+                }
+                let res = std::panic::catch_unwind(std::panic::AssertUnwindSafe(|| Instance::try_resolve(tcx, env, *cdid, cargs)));
+                match res {
+                    Ok(Ok(Some(ri))) => match ri.def {
+                        ty::InstanceKind::Item(rd) => {
+                            if self.in_ws(rd) {
+                                let to = self.node(rd, ri.args);
+                                self.edges.push((idx, to, "call", line));
+                            } else {
+                                // a call that leaves the workspace (std, bytemuck, ...): recorded by name only
+                                let unresolved = tcx.trait_of_assoc(rd).is_some() && rd == *cdid && !tcx.defaultness(rd).has_value();
+                                if unresolved && self.in_ws(tcx.trait_of_assoc(rd).unwrap()) {
+                                    self.ext_calls.push((idx, format!("unresolved-trait:{}", path_of(tcx, rd)), line));
+                                }
+                            }
+                        }
+                        ty::InstanceKind::Virtual(md, _) => {
+                            self.virtual_targets(idx, md, line);
+                        }
+                        ty::InstanceKind::ClosureOnceShim { call_once: _, .. } => {
+                            // the closure body itself is attached through fn_types_in above
+                        }
+                        ty::InstanceKind::FnPtrShim(..) | ty::InstanceKind::ReifyShim(..) => {}
+                        _ => {}
+                    },
+                    _ => {
+                        if self.in_ws(*cdid) {
+                            // unresolved trait method on a type parameter: A-CB, recorded for evidence
+                            self.ext_calls.push((idx, format!("unresolved:{}", path_of(tcx, *cdid)), line));
+                        }
+                    }
+                }
+            }
+        }
+    }
+}
+
+pub fn dump_callgraph<'tcx>(tcx: TyCtxt<'tcx>, krate: &str, out: &mut Vec<u8>) {
+    let ws: Vec<String> = std::env::var("FV_CRATES").unwrap_or_default().split(',').map(|x| x.to_string()).collect();
+    let mut cg = Cg { tcx, ws, ids: HashMap::new(), nodes: Vec::new(), work: Vec::new(), edges: Vec::new(), ext_calls: Vec::new() };
+    let mut keys: Vec<_> = tcx.mir_keys(()).iter().copied().collect();
+    keys.sort_by_key(|k| tcx.def_path_hash(k.to_def_id()));
+    for ldid in keys {
+        let did = ldid.to_def_id();
+        match tcx.def_kind(did) {
+            DefKind::Fn | DefKind::AssocFn => {}
+            _ => continue,
+        }
+        let a = GenericArgs::identity_for_item(tcx, did);
+        cg.node(did, a);
+    }
+    while let Some(i) = cg.work.pop() {
+        cg.process(i);
+    }
+    let mut push = |line: String| {
+        out.extend_from_slice(line.as_bytes());
+        out.push(b'\n');
+    };
+    for (i, n) in cg.nodes.iter().enumerate() {
+        let l = loc_of(tcx, tcx.def_span(n.did));
+        push(obj(&[
+            ("k", "\"cgnode\"".into()),
+            ("crate", s(krate)),
+            ("id", i.to_string()),
+            ("path", s(&path_of(tcx, n.did))),
+            ("args", s(&args_str(n.args))),
+            ("mono", b(Cg::is_mono(n.args))),
+            ("local", b(n.did.is_local())),
+            ("has_body", b(cg.body_of(n.did).is_some())),
+            ("file", s(&l.file)),
+            ("line", l.line.to_string()),
+        ]));
+    }
+    let mut e = String::with_capacity(cg.edges.len() * 24);
+    e.push_str("{\"k\":\"cgedges\",\"crate\":");
+    e.push_str(&s(krate));
+    e.push_str(",\"edges\":[");
+    for (i, (f, t, k, line)) in cg.edges.iter().enumerate() {
+        if i > 0 {
+            e.push(',');
+        }
+        e.push_str(&format!("[{},{},\"{}\",{}]", f, t, k, line));
+    }
+    e.push_str("],\"unresolved\":[");
+    for (i, (f, what, line)) in cg.ext_calls.iter().enumerate() {
+        if i > 0 {
+            e.push(',');
+        }
+        e.push_str(&format!("[{},{},{}]", f, s(what), line));
+    }
+    e.push_str("]}");
+    push(e);
+}
